@@ -1,4 +1,6 @@
 SPECIFICATION MonSpec
+CONSTANTS
+  PxOk = TRUE
 INVARIANTS PrivacyInv
 CHECK_DEADLOCK FALSE
 POSTCONDITION AllRead
